@@ -660,7 +660,7 @@ fn short_event(e: &Event) -> String {
 fn eval_point(stats: &mut Stats, ctx: &Ctx, sim: &Sim, point: serde_json::Value, structural: bool) {
     if ctx.cfg.power_loss {
         let mut capped = false;
-        let images = sim.power_loss_images(64, &mut capped);
+        let images = sim.power_loss_images(if TINY { 4096 } else { 64 }, &mut capped);
         if capped {
             stats.count("power_loss_image_cap_hit", 1);
         }
